@@ -603,6 +603,7 @@ package apd
 //@   requires writable(d) && inv(x) && inv(y)
 //@   assigns d
 //@   ensures [invkeep] old(inv(d)) ==> inv(d)
+//@   ensures [inv] inv(d)
 //@   ensures [closed] closed(ret0)
 //@   ensures [trap] ret1 != nil <==> trapped(c, ret0)
 //@   ensures [nan] NaN2(x, y, d, ret0)
